@@ -7,14 +7,14 @@ def T(qcases, tcases, qbudget=240, tbudget=1500, workers=16):
             "thorough": dict(cases=tcases, budget_s=tbudget, workers=workers)}
 
 PROPS = {
-    "C07": dict(sources=["props/C07.cpp", "vsched.cpp"], jls=True, sched=True, mrb_size=1024, tiers=T(400, 8000),
+    "C07": dict(sources=["props/C07.cpp", "vsched.cpp"], jls=True, sched=True, mrb_size=1024, enumerate=True, tiers=T(2000, 40000),
                 assumptions=["same scheduler and scheduling points as C06; liveness is decided as: no deadlock (no runnable thread, no sleeper) and completion within 3e6 scheduling steps under the generated schedule followed by run-to-completion",
                              "a flush that returns TIMED_OUT asserts nothing; 'had returned before the flush call started' is judged on the global trace order of the scheduler",
                              "a livelock that depends on real time passing differently from the virtual clock is out of reach"]),
-    "C06": dict(sources=["props/C06.cpp", "vsched.cpp"], jls=True, sched=True, mrb_size=1024, tiers=T(400, 8000),
+    "C06": dict(sources=["props/C06.cpp", "vsched.cpp"], jls=True, sched=True, mrb_size=1024, enumerate=True, tiers=T(1600, 30000),
                 assumptions=["scheduling points: every pthread operation, sleep and clock read of backend_posix.c, every queue operation, the middle of every memcpy and every synchronous-writer call in threaded_writer.c, every backend I/O call; code between two points runs atomically",
                              "queue capacity 1024 bytes through the JLS_VERIF_MRB_BUFFER_SIZE hook",
-                             "exhaustive bounded-preemption enumeration is not implemented in this revision: schedules are sampled (choice vectors with shrinking)",
+                             "besides the sampled schedules (choice vectors with shrinking) every schedule with <= 2 preemptions (quick) / <= 3 (thorough) of five tiny two-thread programs, and <= 1 / <= 2 of a three-thread program, is enumerated; time jumps are only sampled",
                              "unsynchronised accesses that are neither queue operations nor writer calls are invisible to this check"]),
     "C10": dict(sources=["props/C10.cpp"], jls=True, mrb_size=1 << 16, tiers=T(600, 12000, workers=12), fuzz=dict(workers=4, quick=40, thorough=900, max_len=2048),
                 assumptions=["instance pointers are live, data pointers valid, strings NUL-terminated, caller buffers exactly the documented size (1 byte where the call must be rejected)",
@@ -27,14 +27,14 @@ PROPS = {
                 assumptions=["'certain' class: <= 3 flipped bits or one burst <= 32 bits per protected region; zeroed/overwritten ranges are also judged (a 2^-32 CRC collision would be reported as a violation and needs manual triage)",
                              "an open that wrote to the file (repair) may expose a prefix of the baseline; otherwise every successful result must equal the baseline's",
                              "splicing whole valid chunks is outside the property's certain clause and is not generated"]),
-    "C02": dict(sources=["props/C02.cpp"], jls=True, tiers=T(150, 2500),
+    "C02": dict(sources=["props/C02.cpp"], jls=True, tiers=T(600, 12000),
                 assumptions=["tolerances (stats_oracle.h): mean (L+2)*(2u*A + n*2^-53*A) with u = 2^-24 (f32 summaries) or 2^-53 (f64 summaries), A = max|x|, L = levels, n = max(sdf, sumdf); std additionally 4*sqrt(tau*A)",
                              "64-bit types: an error return is accepted (the reader documents that raw-sample statistics of 64-bit types are unsupported); 24-bit types cannot be summarised and are excluded",
                              "windows containing gap fill are excluded (C09)"]),
     "C15": dict(sources=["props/C15.cpp"], jls=True, tiers=T(600, 8000),
                 assumptions=["'enable is delayed by one block' is not predicted: which blocks are omitted is read from the level-1 index of the omit run",
                              "blocks omitted on request are only required to read back with rc 0 and the right number of samples; automatically omitted constant blocks of <= 8-bit types must be bit-exact"]),
-    "C19": dict(sources=["props/C19.cpp"], jls=True, level="fault_enumeration", tiers=T(400, 6000, qbudget=300, tbudget=1800),
+    "C19": dict(sources=["props/C19.cpp"], jls=True, level="fault_enumeration", tiers=T(2000, 20000, qbudget=300, tbudget=1800),
                 worker_variants=["fast", "fast", "fast", "asan"],
                 assumptions=["crash images as in C03 (exact write-log replay); only images that jls_rd_open accepts are judged",
                              "'same answers' = dump_compare over definitions, lengths, all samples, a statistics battery, annotations, UTC, user data",
@@ -45,31 +45,31 @@ PROPS = {
                              "'submitted' counts the samples of calls that had started when the writer stopped; the loss bound uses calls that had completed",
                              "signals with omission on request are not compared sample by sample (the reader synthesises omitted blocks)",
                              "each case examines the boundaries k = phase (mod stride); all boundaries are covered across cases, not within one case"]),
-    "C17": dict(sources=["props/C17.cpp"], jls=True, tiers=T(250, 4000),
+    "C17": dict(sources=["props/C17.cpp"], jls=True, tiers=T(750, 10000),
                 assumptions=["statistics of original and copy are compared with relative tolerance 1e-9 (same data, same block structure)",
                              "for unclosed/cut originals the original is dumped after copying (opening repairs it) and must be contained in the copy's dump; a cut source that jls_copy refuses is not judged"]),
-    "C14": dict(sources=["props/C14.cpp"], jls=True, mrb_size=1 << 22, tiers=T(300, 5000),
+    "C14": dict(sources=["props/C14.cpp"], jls=True, mrb_size=1 << 22, tiers=T(1200, 20000),
                 assumptions=["the file header written by jls_wr_open is an append (empty file); its rewrite at close is the only other write at offset 0",
                              "a head-table rewrite is the 128-byte payload followed by its 8-byte footer (pad + CRC)"]),
-    "C05": dict(sources=["props/C05.cpp"], jls=True, mrb_size=1 << 22, tiers=T(250, 4000),
+    "C05": dict(sources=["props/C05.cpp"], jls=True, mrb_size=1 << 22, tiers=T(1000, 16000),
                 assumptions=["decoder follows format.h/README; where they are silent (SOURCE_DEF/SIGNAL_DEF serialisation, string terminator {0,0x1f}, annotation payload header) it follows the de-facto layout and reports deviations as observations only",
                              "structural predicates are asserted for chunks reachable from the initial lists, head tables and index entries; byte-level predicates for every chunk (orphans left by repair are counted)",
                              "threaded origin uses real threads with a 4 MiB queue (JLS_VERIF_MRB_BUFFER_SIZE); schedules are explored by C06"]),
-    "C12": dict(sources=["props/C12.cpp"], jls=True, tiers=T(300, 4000),
+    "C12": dict(sources=["props/C12.cpp"], jls=True, tiers=T(1500, 25000),
                 assumptions=["UTC sample ids are reported relative to the first sample id; anchors lie within [first sample - 1 h, last sample] (what the reader documents loading)",
                              "times advance by at least one tick per sample (strictly increasing), spans stay below 2^50 ticks so that the 1-tick bound is meaningful for double arithmetic",
                              "tolerance: 1 tick + 1e-14 * distance from the first anchor"]),
-    "C11": dict(sources=["props/C11.cpp"], jls=True, tiers=T(300, 4000),
+    "C11": dict(sources=["props/C11.cpp"], jls=True, tiers=T(600, 10000),
                 assumptions=["annotation timestamps of FSR signals are reported relative to the first sample id (reader.h)",
                              "string/json payloads are returned with their terminating NUL counted in data_size"]),
-    "C13": dict(sources=["props/C13.cpp"], jls=True, tiers=T(400, 5000),
+    "C13": dict(sources=["props/C13.cpp"], jls=True, tiers=T(800, 10000),
                 assumptions=["strings are NUL-terminated byte strings without interior NUL; any other byte value is allowed",
                              "a definition whose string exceeds the internal 1 MiB string block may be rejected (but must not corrupt anything)",
                              "user data written with storage type 0 (INVALID) is the writer's own marker and is not returned by the reader"]),
-    "C09": dict(sources=["props/C09.cpp"], jls=True, tiers=T(400, 6000),
+    "C09": dict(sources=["props/C09.cpp"], jls=True, tiers=T(3200, 50000),
                 assumptions=["gap fill must read back as NaN (any NaN) for f32/f64 and as 0 for integers",
                              "stored level-1 summaries are observed through summary-aligned jls_rd_fsr_statistics requests (increment = sample_decimate_factor, >= 25 entries); the last requested entry is recomputed from raw samples by the reader and is not judged"]),
-    "C01": dict(sources=["props/C01.cpp"], jls=True, tiers=T(300, 5000),
+    "C01": dict(sources=["props/C01.cpp"], jls=True, tiers=T(2700, 40000),
                 assumptions=["reader buffers are exactly the size reader.h documents (1 + n*bits/8 bytes for sub-byte types)",
                              "contiguous writes only (gaps/overlaps are C09); quick tier <= ~50k samples per case"]),
     "C16": dict(sources=["props/C16.cpp"], jls=True, enumerate=True, tiers=T(150, 6000),
@@ -77,15 +77,15 @@ PROPS = {
                              "definitions with all four fields <= 1000 must be accepted (they are documented as write suggestions)",
                              "24-bit types have no default table in this commit: zero fields there are only held to the minimums",
                              "SMT over the full 2^128 domain is not attempted (different technique family); sampled instead"]),
-    "C08": dict(sources=["props/C08.cpp"], jls=True, enumerate=True, tiers=T(3000, 40000),
+    "C08": dict(sources=["props/C08.cpp"], jls=True, enumerate=True, tiers=T(12000, 150000),
                 fuzz=dict(workers=4, quick=0, thorough=300, max_len=1024),
                 assumptions=["'genuinely does not fit' is read as: no contiguous free region of size+4 bytes; the implementation's 8 bytes of marker/disambiguation slack are accepted either way (must succeed with size+12 free)",
                              "usable capacity after emptying = capacity-12"]),
-    "C18": dict(sources=["props/C18.cpp", "props/C18_sw.c"], jls=True, enumerate=True, tiers=T(3000, 40000),
+    "C18": dict(sources=["props/C18.cpp", "props/C18_sw.c"], jls=True, enumerate=True, tiers=T(6000, 80000),
                 fuzz=dict(workers=4, quick=0, thorough=300, max_len=256),
                 assumptions=["bit-serial reference implements the standard CRC-32C definition (check value 0xE3069283 asserted)",
                              "crc32c_arm_neon.c cannot be compiled on this x86 sandbox: not covered"]),
-    "C20": dict(sources=["props/C20.cpp"], jls=True, tiers=T(4000, 60000),
+    "C20": dict(sources=["props/C20.cpp"], jls=True, tiers=T(40000, 600000),
                 assumptions=["long double (x87 80-bit) two-pass reference is exact enough for n <= 10^4",
                              "error bounds: mean 2(n+4)eps*A; S 8n*eps*(S+A*sqrt(nS))+4n^3eps^2A^2 (Welford/pairwise bound)"]),
 }
